@@ -16,15 +16,18 @@ def pMatchArgs : P (List (List Nat) × List (List Nat)) := do
 
 def matchD (op : String) (args : List Nat) : Option String :=
   match op with
-  | "matchw" => some <| match runP pMatchArgs args with
-      | some (a, b) => match matchWords a b with
-        | some m => ok (ePairs m ++ [a.length, b.length])
-        | none => err "should-not-happen"
+  | "matchw" => some <| match runP (do let x ← pMatchArgs; let m ← pList (pPair pNat pNat); let al ← pNat; let bl ← pNat; pure (x, m, al, bl)) args with
+      -- relational: the observed matching must be a longest one; the word counts are fixed
+      | some ((a, b), m, al, bl) =>
+        if (matchWords a b).isNone then err "should-not-happen"
+        else if al != a.length || bl != b.length then "refuse word-counts"
+        else if matchAccept a b m then "accept" else "refuse not-a-longest-increasing-matching"
       | none => reject
-  | "editedw" => some <| match runP pMatchArgs args with
-      | some (a, b) => match matchWords a b with
-        | some m => let e := editedWords a.length b.length m; ok (eNats e.1 ++ eNats e.2)
-        | none => err "should-not-happen"
+  | "editedw" => some <| match runP (do let x ← pMatchArgs; let m ← pList (pPair pNat pNat); let ea ← pNats; let eb ← pNats; pure (x, m, ea, eb)) args with
+      -- the observed matching (of the same run) and the observed edited sets (sorted): exactly its complement
+      | some ((a, b), m, ea, eb) =>
+        if !matchAccept a b m then "refuse not-a-longest-increasing-matching"
+        else if editedWords a.length b.length m == (ea, eb) then "accept" else "refuse not-the-complement"
       | none => reject
   | _ => none
 
